@@ -52,6 +52,7 @@ THEOREMS = [
     "OllamaVerif.C16.W1_overhead_wraps",
     "OllamaVerif.C16.counts_sum",
     "OllamaVerif.C16.noWrap_of_small",
+    "OllamaVerif.C16.noWrap_of_small_raw",
     "OllamaVerif.C16.fit_never_when_numGPU_huge",
     "OllamaVerif.C16.noWrap_fixed_any_overhead",
     "OllamaVerif.C16.alloc_le_free_fixed",
